@@ -123,6 +123,20 @@ L2Present(tk, st, t) ==
                   ELSE IF ApiLive(a, tk) THEN "ok"
                   ELSE IF t >= tk.iat + Grace THEN "expired" ELSE "ok"
 
+\* check_oauth2_account_uuid_valid for an access token o = [acct, oid, parent, iat] (token expiry aside)
+L2O2Active(o, st, t) ==
+  IF o.acct \notin DOMAIN st.accts THEN "inactive"
+  ELSE LET a == st.accts[o.acct]
+           grace == t < o.iat + Grace
+       IN  IF ~Within(t, a.vf, a.ex) THEN "inactive"
+           ELSE IF o.oid \in DOMAIN a.o2 THEN
+                  IF a.o2[o.oid].st = "rev" THEN "inactive"
+                  ELSE IF o.parent = "none" THEN "active"
+                  ELSE IF o.parent \in DOMAIN a.sess
+                       THEN (IF a.sess[o.parent].st # "rev" THEN "active" ELSE "inactive")
+                  ELSE IF o.parent \in DOMAIN a.api \/ grace THEN "active" ELSE "inactive"
+           ELSE IF grace THEN "active" ELSE "inactive"
+
 \* ------------------------------------------------------------------ L2  (C36, state changes)
 \* SessionConsistency::modify_inner runs on every modify of the account at time now:
 \* live sessions whose credential is gone are revoked, then sessions at/past expiry are revoked,
